@@ -399,31 +399,31 @@ Definition grid_ok (ea ep : list R) (p0 p1 : R) : Prop :=
 
 Lemma angles_unfold x y z :
   angles ROps (x, y, z) =
-  if Reqb (nrm (snap x, snap y, z)) 0 then None
-  else Some (v_azimuth ROps x y z, v_polar ROps (snap x) (snap y) z).
+  if Reqb (nrm (x, y, z)) 0 then None
+  else Some (v_azimuth ROps x y z, v_polar ROps x y z).
 Proof. reflexivity. Qed.
 
-(* upper hemisphere grid: a vector is counted iff (after the azimuth snap) it is
+(* upper hemisphere grid: a vector is counted iff it is
    non-zero and has z >= 0 *)
 Lemma counted_upper ea ep x y z w : grid_ok ea ep 0 (PI / 2) ->
   (cell ROps ea ep (angles ROps (x, y, z), w) <> None <->
-   0 < nrm (snap x, snap y, z) /\ 0 <= z).
+   0 < nrm (x, y, z) /\ 0 <= z).
 Proof.
   intros [la [lp [Ea [Ep [Hla [Hlp [Ia [Ip [La Lp]]]]]]]]].
   unfold cell. cbn [fst]. rewrite angles_unfold. unfold Reqb.
-  pose proof (nrm_nonneg (snap x, snap y, z)) as Hn0.
-  destruct (Req_EM_T (nrm (snap x, snap y, z)) 0) as [E | E].
+  pose proof (nrm_nonneg (x, y, z)) as Hn0.
+  destruct (Req_EM_T (nrm (x, y, z)) 0) as [E | E].
   - split; [intros H; contradiction | intros [H _]; lra].
-  - assert (Hn : 0 < nrm (snap x, snap y, z)) by lra.
+  - assert (Hn : 0 < nrm (x, y, z)) by lra.
     pose proof (azimuth_range x y z) as Haz.
     assert (Ba : bin_of ROps ea (v_azimuth ROps x y z) <> None).
     { subst ea. apply bin_of_some; auto. rewrite La. lra. }
     destruct (bin_of ROps ea (v_azimuth ROps x y z)) as [i |] eqn:Bi; [| contradiction].
-    pose proof (polar_upper (snap x) (snap y) z Hn) as Hp.
-    assert (Bp : bin_of ROps ep (v_polar ROps (snap x) (snap y) z) <> None
-                 <-> 0 <= v_polar ROps (snap x) (snap y) z <= PI / 2).
+    pose proof (polar_upper x y z Hn) as Hp.
+    assert (Bp : bin_of ROps ep (v_polar ROps x y z) <> None
+                 <-> 0 <= v_polar ROps x y z <= PI / 2).
     { subst ep. rewrite bin_of_some by auto. rewrite Lp. reflexivity. }
-    destruct (bin_of ROps ep (v_polar ROps (snap x) (snap y) z)) as [j |] eqn:Bj.
+    destruct (bin_of ROps ep (v_polar ROps x y z)) as [j |] eqn:Bj.
     + split; [intros _ | intros _; discriminate]. split; [exact Hn |]. apply Hp. apply Bp. discriminate.
     + split; [intros H; contradiction H; reflexivity |]. intros [_ Hz].
       apply Hp in Hz. apply Bp in Hz. contradiction.
@@ -431,23 +431,23 @@ Qed.
 
 Lemma counted_lower ea ep x y z w : grid_ok ea ep (PI / 2) PI ->
   (cell ROps ea ep (angles ROps (x, y, z), w) <> None <->
-   0 < nrm (snap x, snap y, z) /\ z <= 0).
+   0 < nrm (x, y, z) /\ z <= 0).
 Proof.
   intros [la [lp [Ea [Ep [Hla [Hlp [Ia [Ip [La Lp]]]]]]]]].
   unfold cell. cbn [fst]. rewrite angles_unfold. unfold Reqb.
-  pose proof (nrm_nonneg (snap x, snap y, z)) as Hn0.
-  destruct (Req_EM_T (nrm (snap x, snap y, z)) 0) as [E | E].
+  pose proof (nrm_nonneg (x, y, z)) as Hn0.
+  destruct (Req_EM_T (nrm (x, y, z)) 0) as [E | E].
   - split; [intros H; contradiction | intros [H _]; lra].
-  - assert (Hn : 0 < nrm (snap x, snap y, z)) by lra.
+  - assert (Hn : 0 < nrm (x, y, z)) by lra.
     pose proof (azimuth_range x y z) as Haz.
     assert (Ba : bin_of ROps ea (v_azimuth ROps x y z) <> None).
     { subst ea. apply bin_of_some; auto. rewrite La. lra. }
     destruct (bin_of ROps ea (v_azimuth ROps x y z)) as [i |] eqn:Bi; [| contradiction].
-    pose proof (polar_lower (snap x) (snap y) z Hn) as Hp.
-    assert (Bp : bin_of ROps ep (v_polar ROps (snap x) (snap y) z) <> None
-                 <-> PI / 2 <= v_polar ROps (snap x) (snap y) z <= PI).
+    pose proof (polar_lower x y z Hn) as Hp.
+    assert (Bp : bin_of ROps ep (v_polar ROps x y z) <> None
+                 <-> PI / 2 <= v_polar ROps x y z <= PI).
     { subst ep. rewrite bin_of_some by auto. rewrite Lp. reflexivity. }
-    destruct (bin_of ROps ep (v_polar ROps (snap x) (snap y) z)) as [j |] eqn:Bj.
+    destruct (bin_of ROps ep (v_polar ROps x y z)) as [j |] eqn:Bj.
     + split; [intros _ | intros _; discriminate]. split; [exact Hn |]. apply Hp. apply Bp. discriminate.
     + split; [intros H; contradiction H; reflexivity |]. intros [_ Hz].
       apply Hp in Hz. apply Bp in Hz. contradiction.
